@@ -24,7 +24,7 @@ const (
 
 var c01Sinks = []string{"text", "vtext", "attr", "attr2", "bound", "vbind", "boundm", "class", "style", "boundstatic",
 	// the {{ }} text sink under parents the HTML parser treats specially (raw text, RCDATA, foreign content, table/select scoping)
-	"text@noscript", "text@xmp", "text@iframe", "text@noembed", "text@noframes", "text@textarea", "text@title", "text@pre",
+	"text@noscript", "text@xmp", "text@iframe", "text@noembed", "text@noframes", "text@textarea", "text@title", "text@pre", "text@premix",
 	"text@option", "text@td", "text@svgtext", "text@button", "text@h1", "text@a", "text@li", "text@code", "vtext@textarea", "vtext@noscript",
 	// bound class/style merged with a static class/style that itself contains a mustache
 	"classi", "stylei",
@@ -112,6 +112,10 @@ func c01SinkEl(sink, nbh, e, extra string) (el string, sinkAttr string, lDec, rD
 			pre, post, tag = `<svg viewBox="0 0 1 1">`, "</svg>", "text"
 		case "li":
 			pre, post = "<ul>", "</ul>"
+		case "premix":
+			// text under <pre> that is not the only child of its element (an empty element follows it)
+			pre, post, tag = "<pre>", "</pre>", "code"
+			rS += "<i></i>"
 		}
 		o := pre + "<" + tag + ` data-s="1"` + sib + extra
 		lit = !c01RawTextTags[tag]
@@ -125,6 +129,8 @@ func c01SinkEl(sink, nbh, e, extra string) (el string, sinkAttr string, lDec, rD
 		return open + `>` + lS + `{{ ` + e + ` }}` + rS + `</p>`, "", lD, rD, true
 	case "vtext":
 		return open + ` v-text="` + e + `">old</p>`, "", "", "", true
+	case "vhtml": // used by C02 only (values without markup characters)
+		return open + ` v-html="` + e + `">old</p>`, "", "", "", true
 	case "attr":
 		return open + ` title="` + lS + `{{ ` + e + ` }}` + rS + `">k</p>`, "title", lD, rD, true
 	case "text-tif":
